@@ -237,6 +237,7 @@ class Facts:
         self.config = j.get('config', '?')
 
     def body(self, path):
+        LOOKUPS.add(path)
         return self.bodies.get(path)
 
     def fn_bodies(self):
@@ -250,12 +251,16 @@ class Facts:
         m = [b for b in self.find(regex) if b.promoted is None]
         if len(m) != 1:
             raise AnchorError(f"anchor /{regex}/ matched {len(m)} bodies: {[b.path for b in m][:6]}")
+        LOOKUPS.add(m[0].path)
         return m[0]
 
     def stats(self):
         nb = len(self.fn_bodies())
         nc = sum(1 for b in self.fn_bodies() for _ in b.calls())
         return {'bodies': nb, 'call_sites': nc}
+
+
+LOOKUPS = set()   # bodies looked up by name as anchors; read by tools/footprint.py only
 
 
 class AnchorError(Exception):
